@@ -31,6 +31,7 @@ const (
 	OutCrash      = "crash"
 	OutKilled     = "killed"
 	OutNoProgress = "no-progress"
+	OutBlocked    = "blocked"
 )
 
 // RunResult is everything observable about one simulated run.
@@ -96,6 +97,9 @@ func RunCLIHook(p *Program, spec world.Spec, hook func(w *world.World, op *world
 				res.Exit = v.Code
 			case world.Kill:
 				res.Outcome = OutKilled
+			case world.Blocked:
+				res.Outcome = OutBlocked
+				res.Stack = string(debug.Stack())
 			case simrt.NoProgress:
 				res.Outcome = OutNoProgress
 				res.Stack = string(debug.Stack())
@@ -111,6 +115,9 @@ func RunCLIHook(p *Program, spec world.Spec, hook func(w *world.World, op *world
 	}()
 	if w.Killed {
 		res.Outcome = OutKilled
+	}
+	if w.Blocked {
+		res.Outcome = OutBlocked
 	}
 	// A changed gopatch may have started goroutines of its own that outlive
 	// main() (a read-ahead worker, say). Give them a moment to finish or to block
